@@ -255,16 +255,17 @@ class IterV(V):
 
 
 class ClosureV(V):
-    __slots__ = ('func', 'caps')
+    __slots__ = ('func', 'caps', 'fp')
 
-    def __init__(self, func, caps):
+    def __init__(self, func, caps, fp=None):
         self.func, self.caps = func, caps  # caps: StructV
+        self.fp = fp or func               # behavioural fingerprint (body modulo spans)
 
     def __repr__(self):
         return 'closure(%s)' % self.func.split('::')[-1]
 
     def key(self):
-        return ('cl', self.func, self.caps.key())
+        return ('cl', self.fp, self.caps.key())
 
 
 class FnV(V):
